@@ -480,6 +480,12 @@ func (self *LocalJobManager) GetSystemReqs(request *JobResources) JobResources {
 		vmemMb = self.maxVmemMB
 	}
 	if vmemMb > 0 && vmemMb < memMb {
+		if self.maxVmemMB > 0 && memMb > self.maxVmemMB {
+			// A job cannot use more memory than address space.  Raising
+			// the address space request above its limit would make the
+			// request impossible to grant.
+			memMb = self.maxVmemMB
+		}
 		vmemMb = memMb
 	}
 	result.MemGB = float64(memMb) / 1024
